@@ -124,7 +124,7 @@ Theorem C05_min_gen_set_option_is_sound :
   (forall k, status k = MgOptimal -> exists a, sat a (encode_mgs I k)) ->
   (forall k, status k = MgInfeasible -> forall a, ~ sat a (encode_mgs I k)) ->
   mgsm_loop status lb n extra = (tried, Some m) ->
-  (lb <= p_k (f_base J))%nat ->
+  (lb <= p_k (f_base J))%nat -> (1 <= p_k (f_base J))%nat ->
   (m <= p_k (f_base J))%nat.
 Proof. exact min_gen_set_option_is_sound. Qed.
 Print Assumptions C05_min_gen_set_option_is_sound.
@@ -147,7 +147,7 @@ Theorem C05_min_gen_set_option_is_sound_for_walks :
   (forall k, status k = MgOptimal -> exists a, sat a (encode_mgs I k)) ->
   (forall k, status k = MgInfeasible -> forall a, ~ sat a (encode_mgs I k)) ->
   mgsm_loop status lb n extra = (tried, Some m) ->
-  (lb <= c_k J)%nat ->
+  (lb <= c_k J)%nat -> (1 <= c_k J)%nat ->
   (m <= c_k J)%nat.
 Proof. exact min_gen_set_option_is_sound_walks. Qed.
 Print Assumptions C05_min_gen_set_option_is_sound_for_walks.
